@@ -1909,6 +1909,116 @@ func scPrimBase(r *h.Rng) *prog {
 	return p
 }
 
+// an object initialiser that names a data property more than once (11.1.5: each PropertyAssignment is a
+// [[DefineOwnProperty]] on the same object - the last value wins, there is ONE property): counted by for-in, deleted,
+// counted again, through an inheriting object as well
+func scDupKeys(r *h.Rng) *prog {
+	p := &prog{}
+	p.v("o", "k", "cnt", "c", "F")
+	keys := []string{"a", "b", "1", "2"}
+	var ps []m.Prop
+	n := 2 + r.Intn(4)
+	for i := 0; i < n; i++ {
+		ps = append(ps, m.Prop{K: keys[r.Intn(1+r.Intn(len(keys)))], V: m.Num(10 + i)})
+	}
+	dup := ps[r.Intn(len(ps))].K
+	ps = append(ps, m.Prop{K: dup, V: m.Num(99)})
+	count := func(x string) []m.N {
+		return []m.N{m.X(m.Asg("cnt", m.Num(0))), m.ForIn(false, "k", m.Var(x), inc("cnt", 1)), lg(m.Var("cnt"))}
+	}
+	p.add(m.X(m.Asg("o", m.Obj(ps...))))
+	p.add(count("o")...)
+	p.add(lg(m.GetE(m.Var("o"), m.Str(dup))))
+	p.add(m.X(m.Asg("F", m.Fn{Body: []m.N{m.Ret0()}}.Expr())), m.X(m.Set(m.Var("F"), "prototype", m.Var("o"))), m.X(m.Asg("c", m.New(m.Var("F")))))
+	p.add(count("c")...)
+	for k := 1 + r.Intn(3); k > 0; k-- {
+		key := ps[r.Intn(len(ps))].K
+		switch r.Intn(3) {
+		case 0, 1:
+			p.add(lg(m.DelE(m.Var("o"), m.Str(key))), lg(m.Typeof(m.GetE(m.Var("o"), m.Str(key)))))
+		default:
+			p.add(m.X(m.SetE(m.Var("o"), m.Str(key), m.Num(7))))
+		}
+		p.add(count("o")...)
+		p.add(count("c")...)
+	}
+	return p
+}
+
+// the parameter of a catch clause is a binding that cannot be deleted (12.14, 10.2.1.1.2 with D = false): delete in
+// the catch block, through direct eval, from a closure made there; an outer binding of the same name stays hidden
+func scCatchDelete(r *h.Rng) *prog {
+	p := &prog{}
+	p.v("f", "g")
+	outer := r.Intn(3) // 0: no outer binding, 1: a global var e, 2: a local of the enclosing function
+	var cb []m.N
+	cb = append(cb, lg(m.Var("e")))
+	for k := 1 + r.Intn(3); k > 0; k-- {
+		switch r.Intn(4) {
+		case 0:
+			cb = append(cb, lg(m.DelV("e")))
+		case 1:
+			cb = append(cb, lg(m.EvalD(nil, nil, []m.N{m.X(m.DelV("e"))})))
+		case 2:
+			cb = append(cb, m.X(m.Asg("g", m.Fn{Body: []m.N{m.Ret(m.DelV("e"))}}.Expr())), lg(m.CallV("g")))
+		default:
+			cb = append(cb, m.X(m.Asg("e", m.Str("changed"))))
+		}
+		cb = append(cb, lg(m.Typeof(m.Var("e"))), lg(m.Var("e")))
+	}
+	cb = append(cb, m.X(m.Asg("f", m.Fn{Body: []m.N{m.Ret(m.Typeof(m.Var("e")))}}.Expr())))
+	try := m.Try([]m.N{m.Throw(m.Str("thrown"))}, "e", cb, nil, true, false)
+	after := []m.N{lg(m.Typeof(m.Var("e"))), lg(m.CallV("f"))}
+	switch outer {
+	case 0:
+		p.add(try)
+		p.add(after...)
+	case 1:
+		p.v("e")
+		p.add(m.X(m.Asg("e", m.Str("outer"))), try)
+		p.add(after...)
+		p.add(lg(m.Var("e")))
+	default:
+		body := append([]m.N{m.X(m.Asg("e", m.Str("local"))), try}, after...)
+		p.decl("h", m.Fn{Name: "h", Vars: []string{"e"}, Body: append(body, m.Ret(m.Var("e")))})
+		p.add(lg(m.CallV("h")), lg(m.Typeof(m.Var("e"))))
+	}
+	return p
+}
+
+// for (var x in o) / for (x in o): the left-hand side is evaluated again for EVERY property (12.6.4 step 6.b):
+// inside `with (w)`, once the body gives w a property x - or takes the one it had away - later names go to the
+// binding that x then denotes (two keys, so the outcome does not depend on the order of enumeration)
+func scForInRebind(r *h.Rng) *prog {
+	p := &prog{}
+	p.v("w", "o", "n")
+	isVar := r.Bool()
+	gives := r.Bool()
+	var wps []m.Prop
+	if !gives {
+		wps = append(wps, m.Prop{K: "x", V: m.Str("init")})
+	}
+	var body []m.N
+	if gives {
+		body = []m.N{m.If(m.Seq(m.Var("n"), m.Num(0)), []m.N{m.X(m.Set(m.Var("w"), "x", m.Str("init")))}, nil)}
+	} else {
+		body = []m.N{m.If(m.Seq(m.Var("n"), m.Num(0)), []m.N{lg(m.Del(m.Var("w"), "x"))}, nil)}
+	}
+	body = append(body, inc("n", 1))
+	loop := m.With(m.Var("w"), m.ForIn(isVar, "x", m.Var("o"), body...))
+	fb := []m.N{m.X(m.Asg("w", m.Obj(wps...))), m.X(m.Asg("o", m.Obj(m.Prop{K: "k1", V: m.Num(1)}, m.Prop{K: "k2", V: m.Num(2)}))), m.X(m.Asg("n", m.Num(0))),
+		loop, lg(m.Var("n")), lg(m.Typeof(m.Var("x"))), lg(m.Typeof(m.Get(m.Var("w"), "x"))), lg(m.Seq(m.Get(m.Var("w"), "x"), m.Str("init"))),
+		lg(m.Seq(m.Var("x"), m.Get(m.Var("w"), "x")))}
+	if r.Bool() {
+		p.decl("f", m.Fn{Name: "f", Vars: []string{"x"}, Body: append(fb, m.Ret(m.Typeof(m.Var("x"))))})
+		p.add(lg(m.CallV("f")))
+	} else {
+		p.v("x")
+		p.add(fb...)
+	}
+	return p
+}
+
 func init() {
 	fnScenarios = append(fnScenarios, []fnScenario{
 		{"with-lookup", scWithLookup}, {"with-closure", scWithClosure}, {"with-this", scWithThis}, {"with-var", scWithVar},
@@ -1918,5 +2028,5 @@ func init() {
 		{"labels", scLabels}, {"dup-params", scDupParams}, {"order", scOrder},
 		{"label-capture", scLabelCapture}, {"eval-throw", scEvalThrow},
 		{"hoist-collide", scHoistCollide}, {"label-stale", scLabelStale}, {"host-reentry", scHostReentry},
-		{"bind-chain", scBindChain}, {"forin-init", scForInInit}, {"eval-delete", scEvalDelete}, {"args-define", scArgsDefine}, {"global-redeclare", scGlobalRedeclare}, {"cond-ref", scCondRef}, {"late-global", scLateGlobal}, {"uncaught", scUncaught}, {"fresh-literals", scFreshLiterals}, {"prim-base", scPrimBase}}...)
+		{"bind-chain", scBindChain}, {"forin-init", scForInInit}, {"eval-delete", scEvalDelete}, {"args-define", scArgsDefine}, {"global-redeclare", scGlobalRedeclare}, {"cond-ref", scCondRef}, {"late-global", scLateGlobal}, {"uncaught", scUncaught}, {"fresh-literals", scFreshLiterals}, {"prim-base", scPrimBase}, {"dup-keys", scDupKeys}, {"catch-delete", scCatchDelete}, {"forin-rebind", scForInRebind}}...)
 }
